@@ -175,14 +175,13 @@ def mapped(rel):
     return []
 
 
-def checks(inp, outp):
-    ms = [json.loads(l) for l in open(inp)]
-    with open(outp, "a") as o:
-        for m in ms:
+def check_one(m):
+    if True:
+        if True:
             d = make(m)
             res = {}
             try:
-                for c in mapped(m["file"]):
+                for c in mapped(m["file"])[:int(os.environ.get("MUT_MAXCHECKS", "3"))]:
                     env = dict(os.environ, VERIF_REPO=d, VERIF_NOEVIDENCE="1", VERIF_TIER="quick", PYTHONDONTWRITEBYTECODE="1")
                     try:
                         r = subprocess.run([os.path.join(VERIF, "check"), c], cwd=VERIF, env=env, stdout=subprocess.PIPE, stderr=subprocess.STDOUT,
@@ -196,8 +195,15 @@ def checks(inp, outp):
                 shutil.rmtree(d, ignore_errors=True)
             m["checks"] = res
             m["caught"] = any(v == 1 for v in res.values())
+            return m
+
+
+def checks(inp, outp):
+    ms = [json.loads(l) for l in open(inp)]
+    with open(outp, "a") as o, ThreadPoolExecutor(int(os.environ.get("MUT_PAR", "2"))) as ex:
+        for m in ex.map(check_one, ms):
             o.write(json.dumps(m) + "\n"); o.flush()
-            print(m["k"], m["file"], m["line"], m["kind"], res, flush=True)
+            print(m["k"], m["file"], m["line"], m["kind"], m["checks"], flush=True)
 
 
 if __name__ == "__main__":
